@@ -41,7 +41,7 @@ U = lambda: Table("u")  # noqa: E731
 # ---- receivers ---------------------------------------------------------------------------------
 def r_select(d):
     t, u = T(), U()
-    cte = QS[0].from_(Table("w")).select(Field("k"))
+    cte = QS[0].from_(Table("t")).select(Field("k"))  # (the CTE body refers to the main table: replace_table reaches it)
     q = (QS[d].with_(cte, "c1").from_(t).join(u).on(t.a == u.a)
          .select(t.a, fn.Sum(t.b).as_("s"), Case().when(t.c == 1, 2).else_(3))
          .where(t.b > 0).prewhere(t.c < 9).groupby(t.a).rollup(t.d)
